@@ -33,7 +33,7 @@ func (h *history) inputs() string {
 		items = append(items, h.extra[0], VL(h.dirty...), h.extra[1], VL(h.later...))
 	case "ctx":
 		items = append(items, h.extra[0], VL(h.dirty...), VL(h.later...))
-	case "copy":
+	case "copy", "pool":
 		items = append(items, VL(h.later...))
 	default:
 		items = append(items, VL(h.dirty...), VL(h.later...))
@@ -75,13 +75,13 @@ func main() {
 	Quiet()
 	RegTestFilters()
 	st := NewStats("C20", cfg)
-	st.Rule = "one case = (object kind, dirtying call history through the public API, return to pool + re-acquire, later calls of the next user); kinds {args,msg,xfer,bb,sock,ctx(live),copy (two containers: CopyTo in both directions into new/small/large/pooled destinations, then refill, mutation, release of either side, observing both)}; dirty histories of 1..25 calls over every setter (all header fields, add/set/del/parse/copy metadata with short, long and quoted keys, filters, bodies, statuses, sizes, swap entries, ids, partial reads); distinct by the full case text; non-trivial = at least 2 dirtying calls and at least one later observation"
+	st.Rule = "one case = (object kind, dirtying call history through the public API, return to pool + re-acquire, later calls of the next user); kinds {args,msg,xfer,bb,sock,ctx(live),copy (two containers: CopyTo in both directions into new/small/large/pooled destinations, then refill, mutation, release of either side, observing both), pool (previous user = pre-session PreCall/PreSend/RawPush with failing and succeeding sends inside a real accept; then overlapping get/put of messages: distinct and pristine)}; dirty histories of 1..25 calls over every setter (all header fields, add/set/del/parse/copy metadata with short, long and quoted keys, filters, bodies, statuses, sizes, swap entries, ids, partial reads); distinct by the full case text; non-trivial = at least 2 dirtying calls and at least one later observation"
 	w := NewCaseWriter(cfg)
 	distinct := DistinctSet{}
 	sampled := map[string]bool{}
 	live := newLive(cfg, st)
 	defer live.close()
-	kinds := []string{"args", "args", "msg", "msg", "msg", "xfer", "bb", "sock", "sock", "ctx", "ctx", "copy", "copy"}
+	kinds := []string{"args", "args", "msg", "msg", "msg", "xfer", "bb", "sock", "sock", "ctx", "ctx", "copy", "copy", "pool"}
 	for i := 0; i < cfg.N; i++ {
 		kind := kinds[i%len(kinds)]
 		var h *history
@@ -100,6 +100,8 @@ func main() {
 			h = live.runCase(i)
 		case "copy":
 			h = runCopyCase(cfg)
+		case "pool":
+			h = runPoolCase(cfg)
 		}
 		if h == nil {
 			st.Count("skipped:" + kind)
@@ -110,7 +112,9 @@ func main() {
 		st.Count(fmt.Sprintf("dirty-len:%s", bucket(len(h.dirty))))
 		// the property, on the implementation alone: recycled == fresh on every observable
 		if strings.Join(h.obs, " ") != strings.Join(h.fresh, " ") {
-			if h.kind == "copy" {
+			if h.kind == "pool" {
+				st.Fail(i, "pool-object-shared", "the message pool handed out an object that is still held by another user, or one that is not pristine: "+firstDiff(h.obs, h.fresh), h.human)
+			} else if h.kind == "copy" {
 				// here "fresh" is the expectation that the container not acted upon still shows what it showed
 				st.Fail(i, "copy-not-independent", "a call on one metadata container changed what the other one shows (copy shares buffers with its source): "+firstDiff(h.obs, h.fresh), h.human)
 			} else {
